@@ -106,6 +106,13 @@ class LayeredSphere(Sphere):
         self.t = ensure_array(t)
         self.center = center
 
+        try:
+            if np.any(self.t < 0):
+                raise InvalidScatterer(self, "layer thickness is negative")
+        except TypeError:
+            # priors as arguments: not checked (as for Sphere)
+            pass
+
     @property
     def r(self):
         r = np.zeros(len(self.t))
